@@ -337,9 +337,66 @@ def check_signs(ctx, rep, found):
                   f"{key}: the population-size index must be the running count of {'coalescent' if want == -1 else 'grid'} marks ({want}); found {marks}")
 
 
+def check_piece_lookups(ctx, rep):
+    """C08.L — which piece of N(t) applies at a time is found by searching the grid (bucketize / searchsorted over the whole grid) or by counting the grid / coalescent
+    marks passed so far (cumsum of the sorted marks); never by arithmetic on one grid element, which silently assumes equally spaced pieces."""
+    from sa.util import backward_slice, local_assignments
+    m = ctx.prog.module(MOD)
+    n = 0
+    PIECE_PARAMS = {'theta', 'grid', 'growth', 'thetas'}
+    for cname, cnode in sorted(m.classes.items()):
+        for fn in [b for b in cnode.body if isinstance(b, ast.FunctionDef) and b.name == 'log_prob']:
+            defs = local_assignments(fn)
+            k = 0
+            for c in ast.walk(fn):
+                if not (isinstance(c, ast.Call) and isinstance(c.func, ast.Attribute) and c.func.attr == 'gather'):
+                    continue
+                torch_fn = isinstance(c.func.value, ast.Name) and c.func.value.id == 'torch'
+                if len(c.args) < (3 if torch_fn else 2):
+                    continue
+                base = c.args[0] if torch_fn else c.func.value
+                idx = c.args[2] if torch_fn else c.args[1]
+                base_slice = backward_slice(base, defs)
+                per_piece = any(isinstance(x, ast.Attribute) and self_attr(x) in PIECE_PARAMS for e in base_slice for x in ast.walk(e))
+                heights_like = any(isinstance(x, ast.Name) and x.id == fn.args.args[1].arg for e in base_slice for x in ast.walk(e))
+                if not per_piece or (heights_like and not isinstance(base, ast.Attribute)):
+                    # gathers that only sort the heights / marks (checked by C08.P)
+                    if not per_piece or any(isinstance(x, ast.Call) and method_name(x) == 'argsort' for x in ast.walk(idx)) or (isinstance(idx, ast.Name) and any(
+                            isinstance(d, ast.Call) and method_name(d) == 'argsort' for d in defs.get(idx.id, []))):
+                        continue
+                n += 1
+                k += 1
+                searches = []
+                for e in backward_slice(idx, defs):
+                    for x in ast.walk(e):
+                        if isinstance(x, ast.Call) and method_name(x) in ('bucketize', 'searchsorted'):
+                            bounds = (x.args[1] if method_name(x) == 'bucketize' else x.args[0]) if len(x.args) > 1 else None
+                            whole = bounds is not None and any(
+                                isinstance(y, ast.Attribute) and self_attr(y) == 'grid' and not (isinstance(getattr(y, '_parent', None), ast.Subscript) and
+                                                                                               isinstance(y._parent.slice, ast.Constant))
+                                for e2 in backward_slice(bounds, defs) for y in ast.walk(e2))
+                            searches.append(('search over the whole grid' if whole else 'search over part of the grid', whole))
+                        elif isinstance(x, ast.Call) and method_name(x) == 'cumsum':
+                            inner = x.func.value if isinstance(x.func, ast.Attribute) and not (isinstance(x.func.value, ast.Name) and x.func.value.id == 'torch') else (x.args[0] if x.args else None)
+                            marks = inner is not None and any(isinstance(y, ast.Compare) for e2 in backward_slice(inner, defs) for y in ast.walk(e2))
+                            if marks:
+                                searches.append(('count of marks passed', True))
+                ok = any(w for _, w in searches)
+                rep.check('C08.L', f"{cname}.log_prob::piece-index-of-{norm_text(base)[:30]}#{k}", ok, where(m, c),
+                          {'index': norm_text(idx)[:60], 'found': sorted({t for t, _ in searches})},
+                          f"{cname}.log_prob looks `{norm_text(base)[:40]}` up with `{norm_text(idx)[:50]}`, an index that is computed neither by searching the whole grid "
+                          f"(bucketize / searchsorted over self.grid) nor by counting the sorted marks: for grids that are not equally spaced from zero the wrong piece of "
+                          f"N(t) is used")
+    if n < 9:
+        rep.incomplete('C08.L', '*', '', f"only {n} per-piece lookups found, expected at least 9")
+
+
 def run(ctx, rep):
     from sa import callbind
     callbind.run_for(ctx, rep, 'C08', 30)
+    from sa import dtypes
+    rep.rule('C08.T', "times / dates given as Python numbers enter the computation at the requested precision: a tensor built from them without a dtype (torch's default float32) is neither computed with nor converted afterwards")
+    dtypes.check_default_precision(ctx, rep, 'C08.T', ['torchtree.evolution.coalescent'], 3)
     rep.explanation = (
         "The event bookkeeping that every coalescent implementation repeats (ten copies) is extracted by dataflow role — the vector handed to argsort, "
         "the permutation gathered into heights and marks, the mark vector's parts and their order against the height vector's parts, the lineage "
@@ -351,6 +408,7 @@ def run(ctx, rep):
     rep.rule('C08.P', "event bookkeeping of every coalescent copy: marks ↔ heights, ascending sort with one permutation, lineages = cumsum(marks)[:-1], C(k,2) = k(k−1)/2, "
                       "later-minus-earlier intervals, minus signs, log N at coalescent events only, θ lookup mark; sibling agreement")
     rep.rule('C08.I', "closed-form integrals: each piece of the interval integral is the antiderivative of 1/N(t) for the N(t) whose log is added at coalescent events; degenerate-case switches are two-sided and scale-free")
+    rep.rule('C08.L', "the piece of N(t) that applies at a time is found by searching the whole grid or by counting sorted marks, never by arithmetic on one grid element")
     rep.rule('C08.M', "tip multiplicities (unique with counts) are taken per tree: along the last axis or on a single row, never pooled over the batch")
     rep.not_decided += ["numerical equality with the Kingman density", "model equivalences (all pieces equal = constant)", "scaling law", "ties between event times",
                         "interleaving of grid and tree events at run time"]
@@ -361,5 +419,12 @@ def run(ctx, rep):
         check_integrals(ctx, rep)
         from props.c08_integrals import check_multiplicities
         check_multiplicities(ctx, rep)
+        check_piece_lookups(ctx, rep)
     except Unsupported as u:
         rep.undecided('C08.P', 'coalescent', f"line {getattr(u.node, 'lineno', 0)}", str(u))
+    # C08.H — the model call evaluates the density at the current parameter values: what the coalescent models read as parameters is registered (listened to)
+    from props import c11
+    from sa.report import RuleProxy
+    rep.rule('C08.H', "the coalescent models listen to every parameter their density reads: none is stored past Parametric.__setattr__ (self.__dict__ writes)")
+    c11.check_dict_writes(ctx, RuleProxy(rep, 'C08.H', ''), only=lambda c: c.module.name == MOD)
+    rep.ok('C08.H', 'coalescent::direct-dict-writes-examined', '', {'sites': rep.analysed.get('dict_write_sites[C08.H]', 0)})
